@@ -500,9 +500,12 @@ class Data:
         lat_seq = full_lat_seq[space_indices]
         lon_seq = full_lon_seq[space_indices]
 
+        #  (the grid first: a window that selects no sample is refused there,
+        #  before the view on the data has been replaced)
+        grid = GeoGrid(time, lat_seq, lon_seq, self.silence_level)
         self._observable = \
             self._full_observable[time_indices, :][:, space_indices]
-        self.grid = GeoGrid(time, lat_seq, lon_seq, self.silence_level)
+        self.grid = grid
 
     def set_global_window(self):
         """
